@@ -23,12 +23,13 @@ ASSUMPTIONS = [
 ]
 
 
-def src(i, n, fail_at, exc):
+def src(i, n, fail_at, exc, ret_kind='str'):
+  from props.c04 import ret_value  # pylint: disable=g-import-not-at-top
   for k in range(n):
     if k == fail_at:
       raise targets.EXC[exc](f'input {i} fails at {k}')
     yield i * 10 + k
-  return f'ret{i}'
+  return ret_value(ret_kind, i)
 
 
 def run_case(case):
@@ -36,6 +37,8 @@ def run_case(case):
   api, par, buf, lens, oc = case['api'], case['parallelism'], case['buffer'], case['inputs'], case['outcome']
   what = f'{api}(parallelism={par}, buffer={buf}) inputs={lens} outcome={oc}'
   out, info = [], {}
+  rets = case.get('rets') or ['str'] * len(lens)
+  what += f' return values={rets}'
   poison = oc.get('value') if oc['kind'] == 'fail_fn' else None
 
   def fn(x):
@@ -49,11 +52,12 @@ def run_case(case):
     return 'F'
 
   def inputs():
-    return [src(i, n, oc['p'] if oc['kind'] == 'fail_input' and oc['i'] == i else None, oc.get('exc', 'ValueError'))
+    return [src(i, n, oc['p'] if oc['kind'] == 'fail_input' and oc['i'] == i else None, oc.get('exc', 'ValueError'), rets[i])
             for i, n in enumerate(lens)]
 
   def main():
-    pool = dsched.ThreadPoolExecutor(max_workers=max(par, len(lens)) + 1, thread_name_prefix='p')
+    # by default a thread per source and one to spare; optionally fewer threads than sources (they wait for a free thread)
+    pool = dsched.ThreadPoolExecutor(max_workers=case.get('pool_size') or (max(par, len(lens)) + 1), thread_name_prefix='p')
     info['pool'] = pool
     ins = inputs()
     if api == 'pmap':
@@ -96,7 +100,7 @@ def run_case(case):
     # all helper work must be able to finish: shutting the caller's pool down must not hang
     pool.shutdown(wait=True)
   try:
-    _, s = dsched.run(main, case['schedule'], max_steps=40000)
+    _, s = dsched.run(main, case['schedule'], max_steps=40000 if len(lens) < 50 else 600000)
   except dsched.Deadlock as e:
     raise Violation('helper-threads-do-not-finish', f'{what}: {e}') from e
   except dsched.StepBudget as e:
@@ -117,16 +121,19 @@ def run_case(case):
     check(sorted(out) == sorted(sequential), 'parallel-output-differs-from-sequential', f'{what}: outputs {sorted(out)}, sequential {sorted(sequential)}')
     if isinstance(res, iter_utils.IteratorQueue):
       if api == 'piter_multiplex':
-        want_ret = sorted(f'ret{i}' for i in range(len(lens)))
+        from props.c04 import ret_value  # pylint: disable=g-import-not-at-top
+        want_ret = sorted(repr(ret_value(rets[i], i)) for i in range(len(lens)))
       elif api == 'pmap':
         want_ret = None
       else:
         want_ret = ['F'] * max(par, 1) if par else None
       if want_ret is not None:
-        check(sorted(res.returned) == want_ret, 'return-values-not-collected', f'{what}: queue.returned = {res.returned}, want {want_ret}')
+        check(sorted(map(repr, res.returned)) == sorted(map(repr, want_ret)) if api != 'piter_multiplex' else sorted(map(repr, res.returned)) == want_ret,
+              'return-values-not-collected', f'{what}: queue.returned = {res.returned}, want {want_ret}')
         # ... and the end-of-stream the consumer actually saw must already carry all of them
         if 'stop_args' in info:
-          check(sorted(info['stop_args']) == want_ret, 'end-of-stream-misses-return-values',
+          check((sorted(map(repr, info['stop_args'])) == want_ret) if api == 'piter_multiplex' else sorted(info['stop_args']) == want_ret,
+                'end-of-stream-misses-return-values',
                 f'{what}: the consumer\'s StopIteration carried {info["stop_args"]!r}, want {want_ret}')
   elif oc['kind'] == 'stop_after':
     total = len(sequential)
@@ -182,8 +189,17 @@ def strat(tier):
       oc = {'kind': kind, 'i': i, 'p': draw(st.integers(0, 5)), 'exc': draw(st.sampled_from(['ValueError', 'KeyError', 'InjectedError']))}
     else:
       oc = {'kind': kind, 'value': draw(st.integers(0, 25)), 'exc': draw(st.sampled_from(['ValueError', 'RuntimeError']))}
-    return {'api': api, 'parallelism': par, 'buffer': draw(st.integers(0, 3)), 'inputs': lens, 'outcome': oc,
-            'schedule': draw(schedule_strategy())}
+    from props.c04 import RET_KINDS  # pylint: disable=g-import-not-at-top
+    case = {'api': api, 'parallelism': par, 'buffer': draw(st.integers(0, 3)), 'inputs': lens, 'outcome': oc,
+            'schedule': draw(schedule_strategy()), 'rets': [draw(st.sampled_from(RET_KINDS)) for _ in lens]}
+    if api in ('piter_multiplex', 'mux_over_queue') and len(lens) >= 2 and draw(st.integers(0, 2)) == 0:
+      case['pool_size'] = draw(st.integers(1, len(lens) - 1))      # fewer threads than sources
+    if api == 'piter_multiplex' and oc['kind'] == 'exhaust' and draw(st.integers(0, 15)) == 0:
+      # very many sources (more than 2**8) on a small pool
+      case.update(inputs=[draw(st.sampled_from([0, 1, 1, 2]))] * draw(st.sampled_from([257, 300])), pool_size=draw(st.integers(1, 3)),
+                  buffer=0, schedule={'mode': 'walk', 'choices': [], 'seed': draw(st.integers(0, 99)), 'p_switch': 0.5})
+      case['rets'] = ['str'] * len(case['inputs'])
+    return case
   return s()
 
 
